@@ -53,6 +53,71 @@ fn check_foreign(items: &[Vec<u8>], utf8: bool, as_name: bool, st: &mut Stats, o
     if ar.comment() != &spec.comment[..] {
         st.viol("archive-comment/raw-bytes-changed", format!("comment() = {}, stored {}", show(ar.comment()), show(&spec.comment)), json!({"kind":"foreign","items":[hex(&items[0])],"utf8":utf8,"as_name":as_name}), order0);
     }
+    // the streaming reader decodes local-header names with its own code; the visitor's metadata objects carry
+    // central-directory names and comments
+    {
+        let mut cur = Cursor::new(&bytes[..]);
+        let mut i = 0usize;
+        loop {
+            let r = guard(|| match zip::read::read_zipfile_from_stream(&mut cur) {
+                Ok(Some(f)) => Ok(Some((f.name().to_string(), f.name_raw().to_vec()))),
+                Ok(None) => Ok(None),
+                Err(e) => Err(e.to_string()),
+            });
+            match r {
+                Ok(Ok(Some((name, raw)))) => {
+                    if let Some(it) = items.get(i) {
+                        if as_name {
+                            st.count("stream_names_checked", 1);
+                            let want = expected(it, utf8);
+                            if raw != *it || name != want {
+                                st.viol(format!("stream-name/wrong-decoding/{mode}"), format!("streaming reader: name() of bytes {} is {:?} (raw {}), expected {:?}", hex(it), name, hex(&raw), want), json!({"kind":"foreign","items":[hex(it)],"utf8":utf8,"as_name":as_name}), order0 + i as u64);
+                            }
+                        }
+                    }
+                    i += 1;
+                }
+                Ok(Ok(None)) => break,
+                Ok(Err(e)) => {
+                    st.viol(format!("stream/error/{mode}/{what}"), format!("streaming reader fails on a well-formed archive at entry {i}: {e}"), json!({"kind":"foreign","items":[hex(items.get(i).unwrap_or(&items[0]))],"utf8":utf8,"as_name":as_name}), order0 + i as u64);
+                    break;
+                }
+                Err(p) => {
+                    st.viol(format!("panic/stream/{}", panic_site(&p)), p, json!({"kind":"foreign","items":[hex(&items[0])],"utf8":utf8,"as_name":as_name}), order0);
+                    break;
+                }
+            }
+        }
+        struct V<'a> {
+            items: &'a [Vec<u8>],
+            utf8: bool,
+            as_name: bool,
+            i: usize,
+            bad: Vec<(usize, String, String)>,
+        }
+        impl<'a> zip::unstable::stream::ZipStreamVisitor for V<'a> {
+            fn visit_file(&mut self, _f: &mut zip::read::ZipFile<'_>) -> zip::result::ZipResult<()> {
+                Ok(())
+            }
+            fn visit_additional_metadata(&mut self, m: &zip::unstable::stream::ZipStreamFileMetadata) -> zip::result::ZipResult<()> {
+                if let Some(it) = self.items.get(self.i) {
+                    let want = expected(it, self.utf8);
+                    let got = if self.as_name { m.name().to_string() } else { m.comment().to_string() };
+                    if got != want || (self.as_name && m.name_raw() != &it[..]) {
+                        self.bad.push((self.i, got, want));
+                    }
+                }
+                self.i += 1;
+                Ok(())
+            }
+        }
+        let mut v = V { items, utf8, as_name, i: 0, bad: vec![] };
+        let _ = guard(|| zip::unstable::stream::ZipStreamReader::new(Cursor::new(&bytes[..])).visit(&mut v));
+        st.count("visitor_metadata_checked", v.i.min(items.len()) as u64);
+        for (i, got, want) in v.bad.into_iter().take(1) {
+            st.viol(format!("visitor-{what}/wrong-decoding/{mode}"), format!("visitor metadata: {what} of bytes {} is {:?}, expected {:?}", hex(&items[i]), got, want), json!({"kind":"foreign","items":[hex(&items[i])],"utf8":utf8,"as_name":as_name}), order0 + i as u64);
+        }
+    }
     for (i, it) in items.iter().enumerate() {
         st.evals += 1;
         let case = || json!({"kind":"foreign","items":[hex(it)],"utf8":utf8,"as_name":as_name});
@@ -164,7 +229,7 @@ pub fn run(args: &Args) -> i32 {
     let thorough = args.tier.thorough();
     ctx.rule = "E-PROD. Foreign side (independent builder): every single byte 0..=255 alone and embedded as 'a?b', every 2-byte string (65 536), \
         every 3-byte string (2^24; quick: as UTF-8-mode names, thorough: all four combinations) and 12 long strings, each as entry name and as file comment, with the UTF-8 flag set and clear; oracle = CPython-derived \
-        CP437 table / std::String::from_utf8_lossy / raw bytes. Writer side: every string of <= 2 characters over a 40-character alphabet and every Unicode scalar \
+        CP437 table / std::String::from_utf8_lossy / raw bytes, through the seekable reader, the streaming reader (names) and the visitor's metadata objects (names and comments). Writer side: every string of <= 2 characters over a 40-character alphabet and every Unicode scalar \
         value as a name; oracle = independent parser finds exactly the UTF-8 bytes with bit 11 set iff non-ASCII and the crate reader \
         returns the string. distinct_nontrivial = distinct (string, mode, position) cases counted by the enumerator (never repeated) + distinct writer names (hash set)."
         .into();
